@@ -246,7 +246,7 @@ Value& MemberCONCATExpression::value(Context& ctx) const
     {
       Integer c = *a0.integer();
       if (c < 0 || c > 255)
-        break;
+        throw RuntimeError(EXC_RT_OUT_OF_RANGE);
       if (c == 0)
       {
         val.swap(Value(new TabChar(1, (char)c)).to_lvalue(val.lvalue()));
